@@ -69,8 +69,14 @@ func (fv *FuncVC) sliceOp(x *ssa.Slice) {
 		if root := fv.rootCell(x.X); root != nil && !fv.escapes[root] {
 			// slice of a local array (varargs, slice literals): fresh backing address,
 			// element values remembered for append.
-			p := fv.freshConst("adr."+x.Name(), SInt)
-			fv.assume(lt(intLit(0), p))
+			var p Term
+			if at.Len() == 0 {
+				// zero-size allocations all share runtime.zerobase
+				p = fv.zerobase()
+			} else {
+				p = fv.freshConst("adr."+x.Name(), SInt)
+				fv.assume(lt(intLit(0), p))
+			}
 			r := mkSlice(add(p, mul(intLit(esz), lo)), sub(hi, lo), sub(capT, lo))
 			fv.define(x, r)
 			fv.localSlices[x] = localSlice{cell: root, n: at.Len(), arr: fv.cellLoad(x.X)}
@@ -409,6 +415,7 @@ func (fv *FuncVC) call(x *ssa.Call) {
 	if fc.Trusted {
 		fv.Trusted[key] = true
 	}
+	n := fv.callCount[key]
 	results := fv.applyContract(x, fc, key, args, argTypes, c.Signature().Results())
 	switch len(results) {
 	case 0:
@@ -417,6 +424,60 @@ func (fv *FuncVC) call(x *ssa.Call) {
 	default:
 		fv.tuples[x] = results
 	}
+	fv.ghostAfter(key, n, x, results, fc)
+}
+
+// shortCallee is the callee name used in call/after clauses.
+func shortCallee(key string) string {
+	short := key
+	if i := strings.LastIndex(short, "."); i >= 0 && !strings.HasPrefix(key, "dyn:") && !strings.HasPrefix(key, "iface:") {
+		short = short[i+1:]
+	}
+	return strings.TrimPrefix(strings.TrimPrefix(short, "dyn:"), "iface:")
+}
+
+// ghostAfter executes the ghost assignments anchored after this call site.
+func (fv *FuncVC) ghostAfter(key string, n int, site ssa.Instruction, results []Term, fc *FuncContract) {
+	short := shortCallee(key)
+	for _, c := range fv.FC.After {
+		parts := strings.SplitN(c.Name, "|", 2)
+		if !(parts[0] == fmt.Sprintf("%s#%d", short, n) || parts[0] == short) {
+			continue
+		}
+		env := fv.newEnv(fv.cur, fv.entry)
+		env.cells = true
+		// results of the call are visible under the callee's result names prefixed by "res_"
+		for i, r := range results {
+			if i < len(fc.Results) {
+				env.vars["res_"+fc.Results[i].Name] = r
+			}
+		}
+		v := env.expr(c.E, c.Pos)
+		old := fv.ghostVal(fv.cur, parts[1])
+		if v.Sort != old.Sort {
+			fv.abort("ghost %s has sort %s, assigned %s (%s)", parts[1], old.Sort, v.Sort, c.Pos)
+		}
+		nv := fv.freshConst("g."+mangle(parts[1]), v.Sort)
+		fv.assumeHere(eq(nv, v))
+		fv.cur.ghost[parts[1]] = nv
+	}
+}
+
+// afterGhosts lists ghosts assigned after calls to the given callee key.
+func (fv *FuncVC) afterGhosts(key string) []string {
+	short := shortCallee(key)
+	var out []string
+	for _, c := range fv.FC.After {
+		parts := strings.SplitN(c.Name, "|", 2)
+		name := parts[0]
+		if i := strings.Index(name, "#"); i >= 0 {
+			name = name[:i]
+		}
+		if name == short {
+			out = append(out, parts[1])
+		}
+	}
+	return out
 }
 
 func shortTypeNameStd(t types.Type) string {
@@ -576,8 +637,10 @@ func (fv *FuncVC) callModifies(ci ssa.CallInstruction) (heaps []string, ghosts [
 	switch {
 	case c.IsInvoke():
 		fc = fv.W.CS.Funcs["iface:"+mangle(shortTypeNameStd(c.Value.Type()))+"."+c.Method.Name()]
+		ghosts = append(ghosts, fv.afterGhosts("iface:"+mangle(shortTypeNameStd(c.Value.Type()))+"."+c.Method.Name())...)
 	case c.StaticCallee() != nil:
 		fc = fv.W.CS.Funcs[fv.W.FuncKey(c.StaticCallee())]
+		ghosts = append(ghosts, fv.afterGhosts(fv.W.FuncKey(c.StaticCallee()))...)
 	default:
 		if u, ok := c.Value.(*ssa.UnOp); ok && u.Op == token.MUL {
 			if fa, ok := u.X.(*ssa.FieldAddr); ok {
@@ -831,4 +894,15 @@ func (fv *FuncVC) copyOp(x *ssa.Call) {
 			fv.assume(Term{S: byteHeapFact(nh), Sort: SBool})
 		}
 	}
+}
+
+// zerobase is the address Go uses for all zero-size allocations. A-ADDR: it lies
+// below 64 KiB, outside every heap object and user buffer.
+func (fv *FuncVC) zerobase() Term {
+	t := fv.declare("adr.zerobase", SInt)
+	if !fv.declared["zerobasefact"] {
+		fv.declared["zerobasefact"] = true
+		fv.assume(and(lt(intLit(0), t), lt(t, intLit(65536))))
+	}
+	return t
 }
